@@ -613,9 +613,34 @@ impl<'w> FnTr<'w> {
             self.local_closures.push((name, pname, pty, (*cl.body).clone()));
             return Ok(false);
         }
+        // `let x = SRC.into_iter().find(|y| P).ok_or_else(|| ERR)?;`
+        if let Expr::Try(t) = e {
+            if let Some(r) = self.try_find_or_err(l, &name, mutable, &t.expr, rest, k, out)? { return Ok(r); }
+        }
         // `let x = E?;` on a `Result` (same error type as the function's)
         if let Expr::Try(t) = e {
-            let inner = self.tr_expr(&t.expr, None)?;
+            self.effect_allowed = self.effect_head_w(&t.expr);
+            let inner = self.tr_expr(&t.expr, None);
+            self.effect_allowed = None;
+            let inner = inner?;
+            out.append(&mut self.pending);
+            if let RTy::Res(vt, et) = &inner.ty {
+                if let RTy::Packed(_, _) = &**vt {
+                    // the payload is a packed struct value: bound as a flattened struct local
+                    match &self.ret { RTy::Res(_, re) if re == et => {} _ => return Err(self.err(e, "`?` on a `Result` in a function with a different error type")) }
+                    if ann.is_some() || mutable { return Err(self.err(l, "annotated / `mut` binding of a struct value")); }
+                    let err_line = self.ret_line(&Ex::atom("(Except.error err)", self.ret.clone()));
+                    out.push(format!("match {} with", inner.text));
+                    out.push(format!("| Except.error err => {}", err_line));
+                    let mark = self.push_scope();
+                    let pat_text = self.bind_list_element(l, &name, vt)?;
+                    out.push(format!("| Except.ok {} => do", pat_text));
+                    let body = self.tr_stmts(rest, k);
+                    self.pop_scope(mark);
+                    out.extend(indent(body?, 2));
+                    return Ok(true);
+                }
+            }
             if let RTy::Res(vt, et) = &inner.ty {
                 match &self.ret { RTy::Res(_, re) if re == et => {} _ => return Err(self.err(e, "`?` on a `Result` in a function with a different error type")) }
                 if let Some(a) = &ann { if *a != **vt { return Err(self.err(l, "annotation does not match")); } }
@@ -1708,6 +1733,85 @@ impl<'w> FnTr<'w> {
         Ok(Some((pre, Ex::atom(resv, list_ty))))
     }
 
+    /// `let x = SRC.into_iter().find(|y| P).ok_or_else(|| ERR)?;`: the search is a definition by structural recursion on the
+    /// list (`P` is evaluated on the elements in order until it holds, like the Rust: a panic in `P` after the hit cannot happen);
+    /// `None` returns `Err(ERR)` from the function
+    fn try_find_or_err(&mut self, l: &syn::Local, name: &str, mutable: bool, e: &Expr, rest: &[Stmt], k: &Kont, out: &mut Vec<String>) -> Res<Option<bool>> {
+        let ooe = match strip_paren(e) { Expr::MethodCall(m) if m.method == "ok_or_else" && m.args.len() == 1 => m, _ => return Ok(None) };
+        let find = match strip_paren(&ooe.receiver) { Expr::MethodCall(m) if m.method == "find" && m.args.len() == 1 => m, _ => return Ok(None) };
+        let iter = match strip_paren(&find.receiver) { Expr::MethodCall(m) if (m.method == "into_iter" || m.method == "iter") && m.args.is_empty() => m, _ => return Ok(None) };
+        let cl = match &find.args[0] { Expr::Closure(c) if c.inputs.len() == 1 && c.capture.is_none() && c.asyncness.is_none() => c, _ => return Ok(None) };
+        let ecl = match &ooe.args[0] { Expr::Closure(c) if c.inputs.is_empty() && c.asyncness.is_none() => c, _ => return Ok(None) };
+        if mutable { return Err(self.err(l, "`mut` binding of a found struct value")); }
+        if self.ret_mode != RetMode::Direct || !self.loop_stack_empty() { return Err(self.err(e, "`find(..).ok_or_else(..)?` inside a loop is unsupported")); }
+        let (ok_ty, err_ty) = match &self.ret { RTy::Res(t, er) => ((**t).clone(), (**er).clone()), _ => return Err(self.err(e, "`?` in a function that does not return `Result`")) };
+        let _ = ok_ty;
+        let mut pat = &cl.inputs[0];
+        while let Pat::Reference(r) = pat { pat = &r.pat; }
+        let var = match pat { Pat::Ident(pi) if pi.subpat.is_none() && pi.by_ref.is_none() && pi.mutability.is_none() => pi.ident.to_string(), _ => return Err(self.err(e, "unsupported closure parameter pattern")) };
+        let sx = self.tr_expr(&iter.receiver, None)?;
+        if !self.pending.is_empty() { return Err(self.err(e, "side effects in the source of `find`")); }
+        let el = match &sx.ty { RTy::VecList(el) => (**el).clone(), _ => return Err(self.err(e, "`find(..)` on something that is not a list")) };
+        let srcv = self.fresh("source");
+        out.push(bind_line(&srcv, &sx));
+        self.loop_counter += 1;
+        let lname = format!("{}.find_{}", self.lean_fn, self.loop_counter);
+        let outer_env = self.env.clone();
+        self.used.push(Default::default());
+        let mark = self.push_scope();
+        let body_res = (|| -> Res<(String, Ex)> {
+            let pat_text = self.bind_list_element(e, &var, &el)?;
+            if contains_return_expr(&cl.body) { return Err(self.err(e, "`return`/`?` inside the predicate of `find`")); }
+            let x = self.tr_expr(&cl.body, Some(&RTy::Bool))?;
+            if x.ty != RTy::Bool { return Err(self.err(e, "the predicate of `find` is not bool")); }
+            if !self.pending.is_empty() { return Err(self.err(e, "side effects in the predicate of `find`")); }
+            Ok((pat_text, x))
+        })();
+        self.pop_scope(mark);
+        let used = self.used.pop().unwrap();
+        self.env = outer_env;
+        let (pat_text, px) = body_res?;
+        let captured = self.captured_of(&used, &[]);
+        let cap_names: Vec<String> = captured.iter().map(|c| c.0.clone()).collect();
+        let call_prefix = if cap_names.is_empty() { lname.clone() } else { format!("{} {}", lname, cap_names.join(" ")) };
+        let list_ty = RTy::VecList(Box::new(el.clone()));
+        self.note_ty_dep(&list_ty);
+        let binders: String = captured.iter().map(|(n, t)| format!(" ({} : {})", n, t.lean())).collect();
+        let (restv, hitv) = (self.fresh("rest"), self.fresh("hit"));
+        let mut d = vec![];
+        d.push(format!("def {}{} : {} → Option (Option {})", lname, binders, list_ty.lean_atom(), el.lean_atom()));
+        d.push("  | [] => pure none".to_string());
+        d.push(format!("  | {} :: {} => do", pat_text, restv));
+        d.push(format!("    {}", bind_line(&hitv, &px)));
+        d.push(format!("    if {} then pure (some {}) else {} {}", hitv, pat_text, call_prefix, restv));
+        let line = { use syn::spanned::Spanned; e.span().start().line };
+        let doc = format!(
+            "/-- `.find(|{}| ..)` of `{}` ({}:{}), by structural recursion on the list: the first element the predicate holds for (the predicate is not evaluated on later elements).  Reads: {}.  `none` = panic. -/",
+            var, self.fn_name, self.target.file, line,
+            if captured.is_empty() { "nothing".to_string() } else { captured.iter().map(|(n, t)| format!("{} : {}", n, t.rust())).collect::<Vec<_>>().join(", ") });
+        self.loops.push(LoopDef { name: lname.clone(), doc, lines: d });
+        let foundv = self.fresh("found");
+        out.push(format!("let {} : Option {} ← {} {}", foundv, el.lean_atom(), call_prefix, srcv));
+        // the error value
+        let ex = self.tr_expr(&ecl.body, Some(&err_ty))?;
+        if ex.ty != err_ty || !ex.pure || !self.pending.is_empty() { return Err(self.err(e, "the error value of `ok_or_else` must be a value of the function's error type that cannot panic")); }
+        let err_line = self.ret_line(&Ex::atom(format!("(Except.error {})", ex.a()), self.ret.clone()));
+        out.push(format!("match {} with", foundv));
+        out.push(format!("| none => {}", err_line));
+        let mark = self.push_scope();
+        let bound = match &el {
+            RTy::Packed(_, _) => self.bind_list_element(l, name, &el),
+            _ => self.declare(l, name, el.clone(), false, None),
+        };
+        let r = match bound {
+            Ok(pt) => { out.push(format!("| some {} => do", pt)); self.tr_stmts(rest, k) }
+            Err(x) => Err(x),
+        };
+        self.pop_scope(mark);
+        out.extend(indent(r?, 2));
+        Ok(Some(true))
+    }
+
     // ------------------------------------------------------------------ method-call statements (list-mode Vec fields)
 
     fn tr_method_stmt(&mut self, e: &Expr, mc: &syn::ExprMethodCall, out: &mut Vec<String>) -> Res<()> {
@@ -1964,6 +2068,11 @@ impl<'w> FnTr<'w> {
                     _ => None,
                 },
                 Expr::Cast(c) => self.resolve_type(&c.ty).ok(),
+                // `values[i]` of a list / array variable: its element type
+                Expr::Index(ix) => match path_ident(&ix.expr).and_then(|n| self.lookup(&n).map(|v| v.ty.clone())) {
+                    Some(RTy::VecList(el)) | Some(RTy::VecFn(el)) => Some((*el).clone()),
+                    _ => None,
+                },
                 _ => None,
             };
             if let Some(t) = t { if matches!(t, RTy::Int(_) | RTy::U64) { return Some(t); } }
